@@ -54,6 +54,17 @@ AtomicMove<SlotType, BUFFER_SIZE> {
         // if !BUFFER_SIZE.is_power_of_two() {
         //     panic!("FullSyncMeta: BUFFER_SIZE must be a power of 2, but {BUFFER_SIZE} was provided.");
         // }
+        #[cfg(feature = "verif")]
+        if crate::verif::sequence_origin() != 0 {
+            let origin = crate::verif::sequence_origin();
+            return Self {
+                head:                 CachePadded::new(AtomicU32::new(origin)),
+                tail:                 CachePadded::new(AtomicU32::new(origin)),
+                dequeuer_head:        CachePadded::new(AtomicU32::new(origin)),
+                enqueuer_tail:        CachePadded::new(AtomicU32::new(origin)),
+                buffer:               UnsafeCell::new(Box::pin([0; BUFFER_SIZE].map(|_| ManuallyDrop::new(slot_initializer())))),
+            }
+        }
         Self {
             head:                 CachePadded::new(AtomicU32::new(0)),
             tail:                 CachePadded::new(AtomicU32::new(0)),
@@ -505,4 +516,23 @@ mod tests {
                                                          |slot_ref| queue.slot_index_from_slot_ref(slot_ref));
     }
 
+}
+
+#[cfg(feature = "verif")]
+impl<SlotType:          Debug + Default,
+     const BUFFER_SIZE: usize>
+crate::verif::VerifState for
+AtomicMove<SlotType, BUFFER_SIZE> {
+    fn verif_state(&self, out: &mut Vec<u64>) {
+        let head = self.head.raw().load(Relaxed);
+        out.push((head as usize % BUFFER_SIZE) as u64);
+        out.push(self.tail.raw().load(Relaxed).wrapping_sub(head) as u64);
+        out.push(self.enqueuer_tail.raw().load(Relaxed).wrapping_sub(head) as u64);
+        out.push(self.dequeuer_head.raw().load(Relaxed).wrapping_sub(head) as u64);
+        let (head_index, len) = (head as usize % BUFFER_SIZE, self.tail.raw().load(Relaxed).wrapping_sub(head) as usize);
+        let array = unsafe { &*(self.buffer.get() as *const Box<[SlotType; BUFFER_SIZE]>) };
+        for i in 0..len.min(BUFFER_SIZE) {
+            out.push(crate::verif::hash_debug(&array[(head_index + i) % BUFFER_SIZE]));
+        }
+    }
 }
